@@ -335,6 +335,76 @@ def probe_cifs(rng):
     return out
 
 
+REUSE_A = """data_a
+_cell_length_a 5.13
+_cell_length_b 6.27
+_cell_length_c 7.41
+_cell_angle_alpha 90
+_cell_angle_beta 104
+_cell_angle_gamma 90
+_symmetry_space_group_name_H-M 'P 1 21/c 1'
+loop_
+_atom_site_label
+_atom_site_fract_x
+_atom_site_fract_y
+_atom_site_fract_z
+_atom_site_U_iso_or_equiv
+_atom_site_adp_type
+Fe1 0.11 0.23 0.37 0.012 Uiso
+O1 0.31 0.43 0.17 0.015 Uiso
+"""
+REUSE_B = """data_b
+_cell_length_a 5.13
+_cell_length_b 6.27
+_cell_length_c 7.41
+_cell_angle_alpha 90
+_cell_angle_beta 104
+_cell_angle_gamma 90
+_symmetry_space_group_name_H-M 'P 1 21/c 1'
+loop_
+_atom_site_label
+_atom_site_fract_x
+_atom_site_fract_y
+_atom_site_fract_z
+Fe1 0.11 0.23 0.37
+O1 0.31 0.43 0.17
+loop_
+_atom_site_aniso_label
+_atom_site_aniso_U_11
+_atom_site_aniso_U_22
+_atom_site_aniso_U_33
+_atom_site_aniso_U_12
+_atom_site_aniso_U_13
+_atom_site_aniso_U_23
+Fe1 0.011 0.022 0.033 0.004 0.005 0.006
+"""
+
+
+def reuse_probe(ctx):
+    import numpy
+    from diffpy.structure.parsers.p_cif import P_cif
+
+    def sig(stru):
+        return [(a.element, a.label, bool(a.anisotropy), tuple(numpy.round(a.xyz, 9)), tuple(numpy.round(numpy.array(a.U).flatten(), 10)),
+                 round(float(a.occupancy), 9)) for a in stru]
+    n = 0
+    for seq in ([REUSE_B, REUSE_B], [REUSE_A, REUSE_B], [REUSE_B, REUSE_A, REUSE_B]):
+        p = P_cif()
+        for k, t in enumerate(seq):
+            ctx.count(("reuse", len(seq), k))
+            try:
+                got, want = sig(p.parse(t)), sig(P_cif().parse(t))
+            except Exception as e:   # noqa
+                got, want = "raised %s" % type(e).__name__, None
+            if got != want:
+                n += 1
+                ctx.violation("read #%d of %d with one parser object differs from the same read with a fresh parser "
+                              "(state carried over between reads)" % (k + 1, len(seq)), {"kind": "parser-reuse", "cifs": seq},
+                              key="parser-reuse:read%d" % (k + 1))
+                break
+    return n
+
+
 def judge_probe(kind, ra, rb):
     if ra["status"] != "ok" or (rb is not None and rb["status"] != "ok"):
         return None
@@ -508,6 +578,8 @@ def run(ctx):
         if msg:
             nviol += 1
             ctx.violation("%s: %s" % (key, msg), {"kind": kind, "cif": ta, "cif_b": tb}, key=key)
+    # one parser object used for several reads must behave like a fresh parser each time (no state carried between reads)
+    nviol += reuse_probe(ctx)
     # when a correspondence broke, look around the differing cases with the oracle (already done for every case above);
     # the differing CIFs themselves are reported when the oracle or the spelling comparison objects to them
     skipped = [r for r in results if r["skip"]]
